@@ -119,7 +119,7 @@ def run_one(job):
         for prop in props:
             env2 = dict(os.environ, MXV_REPO=dst, MXV_EVIDENCE_DIR=os.path.join(tmp, "ev"), VERIF_SEED="0")
             try:
-                r = subprocess.run(["./check", prop, "--tier", "quick"], cwd="/verif", env=env2, stdout=subprocess.PIPE,
+                r = subprocess.run(["./check", prop, "--tier", "quick"], cwd=os.environ.get("MXV_VERIF_ROOT", "/verif"), env=env2, stdout=subprocess.PIPE,
                                    stderr=subprocess.STDOUT, timeout=1500)
                 out = r.stdout.decode("utf-8", "replace")
                 clauses = sorted(set(l.split("clause=")[1].split()[0] for l in out.split("\n") if "clause=" in l))
